@@ -351,17 +351,19 @@ fn replay(history: &[Vec<Event>], on_disk: bool) -> Result<World, String> {
 
 /// the oracle: a fresh run over the final inputs and configuration
 fn judge(w: &World) -> Vec<String> {
-    judge_hiding(w, None)
+    judge_hiding(w, &[])
 }
 
 /// `hidden`: bug model of the known finding `new-file-earlier-in-the-resolution-order-is-not-noticed` - the fresh run does
 /// not see that source (as if it had not been created) and its own output is not compared
-fn judge_hiding(w: &World, hidden: Option<&str>) -> Vec<String> {
+fn judge_hiding(w: &World, hidden: &[&str]) -> Vec<String> {
     let mut problems = Vec::new();
     let mut files = list_files(&w.store);
-    if let Some(h) = hidden {
-        files.remove(h);
-        files.remove(&format!("out/{}", &h[4..]));
+    for h in hidden {
+        files.remove(*h);
+        if let Some(rest) = h.strip_prefix("src/") {
+            files.remove(&format!("out/{}", rest));
+        }
     }
     let on_disk = w.store.root.is_some();
     let guard = if on_disk { tempfile::tempdir().ok() } else { None };
@@ -848,13 +850,14 @@ fn explore(on_disk: bool, tier: Tier, report: &mut Report) -> (usize, usize) {
                         };
                         if let Some(full) = differing(&problems) {
                             let mut explained = vec![false; full.len()];
-                            for c in candidates {
-                                if w.store.get(c).is_some() {
-                                    if let Some(hidden) = differing(&judge_hiding(&w, Some(c))) {
-                                        for (i, p) in full.iter().enumerate() {
-                                            if !hidden.contains(p) {
-                                                explained[i] = true;
-                                            }
+                            // every non-empty set of the candidate files that exist (two files created one after the other)
+                            let present: Vec<&str> = candidates.iter().cloned().filter(|c| w.store.get(c).is_some()).collect();
+                            for mask in 1u32..(1 << present.len()) {
+                                let set: Vec<&str> = present.iter().enumerate().filter(|(i, _)| mask & (1 << i) != 0).map(|(_, c)| *c).collect();
+                                if let Some(hidden) = differing(&judge_hiding(&w, &set)) {
+                                    for (i, p) in full.iter().enumerate() {
+                                        if !hidden.contains(p) {
+                                            explained[i] = true;
                                         }
                                     }
                                 }
